@@ -81,3 +81,22 @@ Example C16_inverted_order_deadlocks :
   forallb (fun i => match LockOrder.blocker LockOrderProofs.inverted_state i with Some _ => true | None => false end)
           [0; 1; 2; 3]%nat = true.
 Proof. exact LockOrderProofs.inverted_order_deadlocks. Qed.
+
+(** the same along executions: threads acquire (when the relation allows it under everything they
+    hold; they get the lock if nobody holds it and wait otherwise) and release one operation at a
+    time, any number of threads and lock instances, from the state in which nobody holds anything:
+    every state reached has an acyclic waits-for graph and a thread that can run *)
+Theorem C16_executions_never_deadlock : forall n ops st,
+  LockOrder.lrun lock_edges (LockOrder.idle_threads n) ops = Some st ->
+  (forall i, ~ clos_trans nat (LockOrderProofs.waits_for st) i i) /\
+  (forall i, LockOrder.blocker st (LockOrder.chase (LockOrder.bound (LockOrder.compute_ranks lock_edges)) st i) = None).
+Proof. exact LockOrderProofs.executions_never_deadlock. Qed.
+Print Assumptions C16_executions_never_deadlock.
+
+(** such an execution with waiting in it reaches the state of the example above *)
+Example C16_execution_nonvacuous :
+  LockOrder.lrun lock_edges (LockOrder.idle_threads 4)
+       [LockOrder.OAcq 3 ("ToxicCollection", 0); LockOrder.OAcq 2 ("acceptTomb", 0); LockOrder.OAcq 1 ("tomb", 0);
+        LockOrder.OAcq 0 ("Proxy", 0); LockOrder.OAcq 0 ("tomb", 0); LockOrder.OAcq 1 ("acceptTomb", 0);
+        LockOrder.OAcq 2 ("ToxicCollection", 0)]%string%nat = Some LockOrderProofs.stop_state.
+Proof. exact LockOrderProofs.stop_execution. Qed.
